@@ -194,8 +194,9 @@ def compile_perrun(ctx, files, timeout=300):
 
 def collect_axioms(ctx, out):
     """parse the output of Print Assumptions"""
-    for m in re.finditer(r'^([A-Za-z_][A-Za-z0-9_.\']*)\s*:', out, re.M):
-        ctx.axioms.add(m.group(1))
+    for m in re.finditer(r'^([A-Za-z_][A-Za-z0-9_.\']*)\s*\n?\s+:', out, re.M):
+        if m.group(1) != 'Axioms':
+            ctx.axioms.add(m.group(1))
     if 'Closed under the global context' in out:
         ctx.cov['closed_theorems'] = ctx.cov.get('closed_theorems', 0) + out.count('Closed under the global context')
 
